@@ -62,7 +62,9 @@ Proof.
   rewrite andb_false_r. apply forallb_ext'. intros s. unfold s_contains. now rewrite P.
 Qed.
 
-(* SpecifierSet.filter, non-empty set: the member filters chained; each member filter with an explicit argument is an exact filter (C06 single) *)
+(* SpecifierSet.filter, non-empty set, as a chain of member filters (each member filter with an explicit argument is an exact filter, C06
+   single).  That is the shape the code had before /repo 70278f0; the code is now one pass over the items, which is the right-hand side of
+   chain_filter / C06_set_filter_exact below; on the string-level model the two are proved equal without premise (SetsFilter.chain_is_one_pass). *)
 Definition chain (eff : bool) (S : list spec) (xs : list item) : list item :=
   fold_left (fun acc s => filter (s_contains eff s) acc) S xs.
 Lemma chain_filter eff S : forall xs, chain eff S xs = filter (fun x => forallb (fun s => s_contains eff s x) S) xs.
